@@ -7,6 +7,8 @@ from __future__ import annotations
 
 import abc
 import collections.abc
+import decimal
+import fractions
 import enum
 import numbers
 import operator
@@ -90,12 +92,27 @@ def a_function(*a, **k):
     return None
 
 
+class StrSub(str):
+    """a str subclass: == and hash-equal to the plain str, a different type"""
+
+
+class IntSub(int):
+    pass
+
+
+class TupleSub(tuple):
+    pass
+
+
 CLASSES = {
     "int": int, "str": str, "float": float, "bool": bool, "list": list, "dict": dict, "tuple": tuple,
     "set": set, "frozenset": frozenset, "bytes": bytes, "object": object, "NoneType": type(None), "type": type,
     "Sized": collections.abc.Sized, "Callable": collections.abc.Callable, "Iterable": collections.abc.Iterable,
     "Mapping": collections.abc.Mapping, "Hashable": collections.abc.Hashable, "Number": numbers.Number,
     "Color": Color, "UserClass": UserClass, "UserSub": UserSub, "Exception": Exception,
+    "Decimal": decimal.Decimal, "Fraction": fractions.Fraction, "StrSub": StrSub, "IntSub": IntSub, "TupleSub": TupleSub,
+    "Real": numbers.Real, "Integral": numbers.Integral, "complex": complex, "Sequence": collections.abc.Sequence,
+    "Container": collections.abc.Container, "SimpleNamespace": types.SimpleNamespace, "ModuleType": types.ModuleType,
 }
 FUNCS = {"len": len, "a_function": a_function, "sorted": sorted}
 _CLS_NAME = {id(c): n for n, c in CLASSES.items()}
@@ -195,6 +212,46 @@ def _hostile(spec):
             mp.append((fp(mk(kd)), v))
     object.__setattr__(o, "_members", members)
     object.__setattr__(o, "_map", mp)
+    return o
+
+
+_LIAR_CACHE: dict = {}
+
+
+def _liar(spec):
+    """an object whose attribute protocol lies while its TYPE has none of the special methods:
+       inst     -- dunders stored on the instance (`obj.__call__ = f`): operators and callable()/len() ignore them
+       getattr  -- "all": `__getattr__` answers every name with a function; ["raise", kind]: it raises that
+       cls      -- `__class__` is a property naming another class (isinstance() believes it, type() does not)"""
+    key = _freeze({k: v for k, v in spec.items() if k != "inst"}) + (tuple(sorted(spec.get("inst", []))),)
+    cls = _LIAR_CACHE.get(key)
+    if cls is None:
+        ns = {"_fp": "L:" + spec["name"]}
+        ga = spec.get("getattr")
+        if ga == "all":
+            ns["__getattr__"] = lambda self, name: (lambda *a, **k: True)
+        elif ga:
+            k = ga[1]
+
+            def __getattr__(self, name, _k=k):
+                raise mk_exc(_k)
+            ns["__getattr__"] = __getattr__
+        if spec.get("cls"):
+            target = CLASSES[spec["cls"]]
+            ns["__class__"] = property(lambda self, _t=target: _t)
+        cls = type("Liar_" + spec["name"], (object,), ns)
+        _LIAR_CACHE[key] = cls
+    o = cls()
+    for name in spec.get("inst", []):
+        if name == "__len__":
+            f = lambda *a: 1                    # noqa: E731
+        elif name in ("__iter__",):
+            f = lambda *a: iter([1])            # noqa: E731
+        elif name == "__hash__":
+            f = lambda *a: 1                    # noqa: E731
+        else:
+            f = lambda *a, **k: True            # noqa: E731
+        o.__dict__[name] = f
     return o
 
 
@@ -322,6 +379,35 @@ def mk(d):
         return out
     if tag == "generic":
         return list[int]
+    if tag == "decimal":
+        return decimal.Decimal(d[1])
+    if tag == "fraction":
+        return fractions.Fraction(d[1], d[2])
+    if tag == "complex":
+        return complex(d[1], 0)
+    if tag == "strsub":
+        return StrSub(d[1])
+    if tag == "intsub":
+        return IntSub(d[1])
+    if tag == "tuplesub":
+        return TupleSub(mk(e) for e in d[1])
+    if tag == "liar":
+        return _liar(d[1])
+    if tag == "ns":
+        return types.SimpleNamespace(**{k: mk(v) for k, v in d[1]})
+    if tag == "module":
+        m = types.ModuleType(d[1])
+        for k, v in d[2]:
+            setattr(m, k, mk(v))
+        return m
+    if tag == "Hsubtype":
+        # a class whose metaclass scripts __subclasscheck__ only (isinstance() must not consult it)
+        key = ("Hsubtype", d[1], bool(d[2]))
+        c = _HTYPE_CACHE.get(key)
+        if c is None:
+            meta = type("MetaS_" + d[1], (type,), {"__subclasscheck__": lambda cls, sub, _r=bool(d[2]): _r})
+            c = _HTYPE_CACHE[key] = meta("HS_" + d[1], (object,), {})
+        return c
     if tag == "pat":
         return re.compile(d[1], d[2])
     if tag == "bpat":
@@ -364,6 +450,22 @@ def fp(v) -> str:
         return t.__name__ + "{" + ",".join(sorted(fp(e) for e in v)) + "}"
     if t is range:
         return "range(%d,%d,%d)" % (v.start, v.stop, v.step)
+    if t is decimal.Decimal:
+        return "decimal:" + str(v)
+    if t is fractions.Fraction:
+        return "fraction:%d/%d" % (v.numerator, v.denominator)
+    if t is complex:
+        return "complex:" + v.real.hex()
+    if t is StrSub:
+        return "strsub:" + str.__str__(v)
+    if t is IntSub:
+        return "intsub:%d" % int(v)
+    if t is TupleSub:
+        return "tuplesub[" + ",".join(fp(e) for e in tuple.__iter__(v)) + "]"
+    if t is types.SimpleNamespace:
+        return "ns{" + ",".join(sorted(v.__dict__)) + "}"
+    if t is types.ModuleType:
+        return "module:" + v.__dict__.get("__name__", "?")
     if isinstance(v, type):
         return "cls:" + v.__name__
     if t is Color:
